@@ -92,6 +92,10 @@ func dispatch(kind string, args []*Sexp) (out *Sexp) {
 		return runC19(kind, args)
 	case "size19":
 		return runSize19(args)
+	case "conc":
+		return runConc(args)
+	case "sharedump":
+		return runShareDump(args)
 	}
 	return L(A("unknown-kind"), A(kind))
 }
